@@ -1,0 +1,54 @@
+//go:build verif
+
+// Package verifhook provides named observation / yield points for the runtime
+// monitors kept outside this repository. It is compiled in only with the
+// "verif" build tag; without the tag every call site is dead code.
+package verifhook
+
+import (
+	"net"
+	"sync"
+)
+
+const Enabled = true
+
+var (
+	mu       sync.RWMutex
+	handlers = map[string]func(args ...any){}
+)
+
+// Set installs (or, with a nil fn, removes) the handler of a point.
+func Set(name string, fn func(args ...any)) {
+	mu.Lock()
+	defer mu.Unlock()
+	if fn == nil {
+		delete(handlers, name)
+	} else {
+		handlers[name] = fn
+	}
+}
+
+// Reset removes every handler.
+func Reset() {
+	mu.Lock()
+	defer mu.Unlock()
+	handlers = map[string]func(args ...any){}
+}
+
+// Point calls the handler installed for name, if any.
+func Point(name string, args ...any) {
+	mu.RLock()
+	fn := handlers[name]
+	mu.RUnlock()
+	if fn != nil {
+		fn(args...)
+	}
+}
+
+type addr struct{}
+
+func (addr) Network() string { return "verif" }
+func (addr) String() string  { return "verif:0" }
+
+// Addr is the address reported by a connection that has no network session.
+func Addr() net.Addr { return addr{} }
